@@ -10,14 +10,14 @@ AREA = "proxysession"
 DRIVER_ARGS = ("-test.run=^TestVerifDriver$", "-test.timeout=0")
 
 POLL_NIL = list("ejsxku")          # pollOffer returns nil
-RELAY_BAD = list("br")
+RELAY_BAD = list("brR")
 ANSWER_FAIL = list("agm")
 FAST_FAIL = POLL_NIL + RELAY_BAD + ["p"] + ANSWER_FAIL
 OPEN = ["o", "A", "+"]             # leave a slot held after the op
 OPNAME = {
     "e": "poll-http-error", "j": "poll-malformed-body", "s": "poll-empty-status", "x": "poll-error-status",
     "k": "poll-match-without-offer", "u": "poll-undecodable-offer", "n": "poll-no-match-then-error",
-    "b": "relay-url-unparsable", "r": "relay-url-rejected", "p": "peer-connection-failure",
+    "b": "relay-url-unparsable", "r": "relay-url-rejected", "R": "relay-url-scheme-rejected", "p": "peer-connection-failure",
     "a": "answer-http-error", "g": "answer-client-gone", "m": "answer-malformed-response",
     "t": "datachannel-timeout", "o": "datachannel-open", "q": "relay-unreachable",
     "A": "answer-fail-after-datachannel-open", "+": "bare-get", "c": "client-close", "d": "relay-close",
@@ -184,7 +184,7 @@ def gen(ctx):
         add(cap, "o,d0", "single-open-relay-close")
         add(cap, "A,c0", "single-answer-fail-after-open")
     # every ordered pair of exit-path classes (one representative each), overlapping an open session
-    reps = ["e", "u", "b", "r", "p", "a", "g", "q", "o", "A"]
+    reps = ["e", "u", "b", "r", "R", "p", "a", "g", "q", "o", "A"]
     for x in reps:
         for y in reps:
             ops, held, sid = ["o"], [0], 1
